@@ -12,6 +12,20 @@ import (
 
 func pathMatch(pat, name string) (bool, error) { return filepath.Match(pat, name) }
 
+// sortByComponents orders relative paths the way filepath.Glob lists them: directory level
+// by directory level, each level's names sorted as strings.
+func sortByComponents(names []string) {
+	sort.Slice(names, func(i, j int) bool {
+		a, b := strings.Split(names[i], "/"), strings.Split(names[j], "/")
+		for k := 0; k < len(a) && k < len(b); k++ {
+			if a[k] != b[k] {
+				return a[k] < b[k]
+			}
+		}
+		return len(a) < len(b)
+	})
+}
+
 var hex16re = regexp.MustCompile(`\b[0-9a-f]{16}\b`)
 
 // canonCmd: error kinds collapse (not-exist kept), every NaN bit pattern prints as "nan".
@@ -627,7 +641,26 @@ func genRemoteCase(r *Rng) []Op {
 	if dangling {
 		all = append(all, "it/f9.wsp") // globbing lists the name; reading it reports not-exist
 	}
-	sort.Strings(all)
+	if r.Chance(1, 3) {
+		// a wildcard above the last component, over sibling directories one of whose names
+		// extends the other's by a character that sorts below the separator: the listing is
+		// ordered directory level by directory level, not as whole strings
+		d1 := []string{"web", "n", "a.b"}[r.Intn(3)]
+		d2 := d1 + []string{"-1", ".x", "!z", "-"}[r.Intn(4)]
+		nested := []string{d1 + "/c/f0.wsp", d2 + "/c/f0.wsp"}
+		if r.Bool() {
+			nested = append(nested, d1+"/c/f1.wsp")
+		}
+		for _, n := range nested {
+			ops = g.writeFile(ops, "src/"+n, g.lay, 1)
+			if r.Chance(3, 4) {
+				ops = g.writeFile(ops, "dst/"+n, g.lay, r.Intn(2))
+			}
+		}
+		all = append(all, nested...)
+		pat = []string{"*/c/*.wsp", d1 + "*/c/f0.wsp", "*/*/f?.wsp"}[r.Intn(3)]
+	}
+	sortByComponents(all)
 	for _, n := range all {
 		if ok, _ := pathMatch(pat, n); ok {
 			pairs = append(pairs, fmt.Sprintf("src/%s>dst/%s", n, n))
@@ -679,13 +712,23 @@ func genLoudCase(r *Rng) []Op {
 		return wAll
 	}
 	to := ""
-	switch r.Intn(5) {
+	switch r.Intn(6) {
 	case 0:
 		to = " textout=bad"
 	case 1:
 		to = " textout=none"
+	case 2:
+		// a text-out that opens and then refuses what is flushed to it when the command
+		// finishes: a report of any size, even none, must not be lost silently
+		to = " textout=full"
 	}
-	switch r.Intn(7) {
+	c := r.Intn(7)
+	if to == " textout=full" && c != 0 && c != 1 && c != 4 {
+		// with the commands that write, or report a difference, where the failure surfaces
+		// depends on the size of the report: kept to the reading commands here
+		c = []int{0, 1, 4}[r.Intn(3)]
+	}
+	switch c {
 	case 0:
 		ops = append(ops, Op{fmt.Sprintf("cmd view src=src/a.wsp header=1 %s%s", pick(!srcBad), to), true})
 	case 1:
